@@ -200,6 +200,11 @@ def section_case(case):
             return {"nontrivial": len(styles) >= 2, "labels": ["rejected", case["format"]]}
         got = {k: list(v) for k, v in ti.checksums.checksums.items()}
         raise Violation("unrecognised-bare-digest-accepted", "section %r loaded as %r" % (lines, got))
+    if len(lines) % 2 and case["format"] != "pre-productmd":
+        # the reading object already holds a value for one of the paths (recorded by hand before the file was read): after the
+        # read, every path of the file maps to what the FILE gives for it
+        first = sorted(want)[0]
+        ti.checksums.checksums[first] = ["sha512", "00" * 64]          # under exactly the spelling the file uses (add() would normalise it)
     must("load-legal-section", ti.loads, doc)
     got = {k: list(v) for k, v in ti.checksums.checksums.items()}
     check(got == want, "table-differs-from-text", lambda: "section %r loaded as %r, the text says %r" % (lines, got, want))
